@@ -193,6 +193,7 @@ RULE = (
     "(loss_{k+1} <= loss_k + 1e-3 (1+loss_k)), BVLS / SLSQP-witness optimality of the factor fitted last (row-wise BVLS for the opacities after "
     "subsampling, bounded LS in vec(X) otherwise), exact repetition for the seed. Non-trivial = a mask with a zero in a multi-layer fit, "
     "or an optimality check of the last factor."
+    " In a quarter of the cases the targets rounded up to whole numbers are decomposed as int64 and as floats (same seed): equal opacities x intensities."
 )
 
 PROP = Prop(
